@@ -2,13 +2,15 @@ PROPS = ["CTV.Props.C12"]
 HARNESS = [dict(pkg="./client/", test="TestVerifC12", synctest=True, timeout=900)]
 RULE = ("client.LogClient against a scripted http.RoundTripper inside a synctest bubble: GetSTH, AddChain, AddPreChain (with attempts answered 408/429/503/undecodable-200 "
         "before the response under test), GetSTHConsistency, GetProofByHash, GetEntryAndProof, GetRawEntries, GetAcceptedRoots, GetEntries; status in "
-        "{200,301,302,303,307,308,400,403,404,408,429,500,502,503,504} x body in {valid, truncated JSON, wrong types, bad base64, JSON followed by garbage, empty/null/{}, extra fields, "
+        "{200,201,202,203,204,205,206,207,226,299,300,301,302,303,304,307,308,400,403,404,408,429,500,502,503,504} (every method x every non-200 2xx x a VALID body) x body in {valid, truncated JSON, wrong types, bad base64, JSON followed by garbage, empty/null/{}, extra fields, "
         "wrong lengths (root hash, id, DigitallySigned length field), trailing TLS bytes, foreign-key signature, corrupted signature, signature over other fields / another chain / "
         "the other entry type / other timestamp or extensions, hash or algorithm code changed, id zero/random/short/long/of another key, version != v1}; with and without a configured key "
-        "(P-256, RSA-2048); chains: certificate, precertificate, precert submitted as cert and vice versa, missing issuer, unparsable, empty; ct.RawLogEntryFromLeaf on genuine, "
+        "(P-256, RSA-2048); arbitrary extra response headers, transport failures, body read failures, a followed redirect; histories of 2-4 calls on ONE client "
+        "(same head re-served with another signature, other head with the first signature, good after bad, re-served SCTs); one call in four through a TemporalLogClient; "
+        "the entry an SCT must be over is derived independently of the repository (standard-library X.509, own poison-extension removal, SHA-256 in the Lean driver); chains: certificate, precertificate, precert submitted as cert and vice versa, missing issuer, unparsable, empty; ct.RawLogEntryFromLeaf on genuine, "
         "damaged, bit-flipped and cut leaf_input/extra_data. non-trivial = distinct lines answered `ok`")
 TRUSTED = ["encoding/json, encoding/base64, net/http client (redirect handling), testing/synctest fake clock",
-           "ct.MerkleTreeLeafFromRawChain and the X.509 parser (the entry an SCT is checked against, and the fatal/non-fatal verdict per entry, are inputs of the model: C03/C11)",
+           "the X.509 parser (what it reports for the first three certificates of a chain, and the fatal/non-fatal verdict per entry, are inputs of the model: C11); x509.BuildPrecertTBS (C03; compared on every run with the harness' own extension removal)",
            "crypto primitives (as in C05)"]
 ASSUMPTIONS = ["retry pacing is outside this property (C13); the model only knows which responses are retried"]
 
